@@ -106,11 +106,11 @@ def expected(ins, ctx):
             return None, 'operand line not implemented'
         d = a.add(b, -1)
         return (max0(d) if k == 'subfloor' else d), None
-    if k == 'rate':
+    if k in ('rate', 'ratefloor'):
         a = ctx.line_atom(ins.a)
         if a is None:
             return None, 'operand line not implemented'
-        return a.scale(ins.rate), None
+        return (max0(a.scale(ins.rate)) if k == 'ratefloor' else a.scale(ins.rate)), None
     if k == 'amount':
         a = ctx.line_atom(ins.a)
         if a is None:
